@@ -14,6 +14,7 @@
 from __future__ import annotations
 
 import ast
+import copy
 import re
 
 from ..cfg import ENTRY, EXIT
@@ -210,6 +211,27 @@ def rule_snapshot(ctx: Ctx) -> None:
         snaps = [s for s in h.body if isinstance(s, ast.Assign) and norm(s.targets[0]) == "self.error_snapshot"]
         why = "the handler does not record self.error_snapshot"
         snap_val = dc.resolve(snaps[0].value) if snaps else None
+        delegated = False
+        if not snaps:
+            # the recording may be delegated to a method called from the handler: substitute its parameters
+            from ..flow import bind_args
+
+            for site in ctx.cg.sites.get(call.qualname, []):
+                if not any(x is site.node for st in h.body for x in ast.walk(st)):
+                    continue
+                for callee in site.callees:
+                    inner = [s for s in walk_no_nested(callee.node) if isinstance(s, ast.Assign) and norm(s.targets[0]) == "self.error_snapshot"]
+                    if inner and isinstance(Defs(callee).resolve(inner[0].value), ast.Call):
+                        b = {k: norm(v) for k, v in bind_args(site.node, callee).items()}
+                        v = copy.deepcopy(Defs(callee).resolve(inner[0].value))
+                        for x in ast.walk(v):
+                            if isinstance(x, ast.Name) and x.id in b:
+                                x.id = b[x.id]
+                        snaps, snap_val, delegated = inner, v, True
+            unresolved = [c for st in h.body for c in ast.walk(st) if isinstance(c, ast.Call) and dotted(c.func) not in ("print",) and not any(s_.node is c and s_.callees for s_ in ctx.cg.sites.get(call.qualname, []))]
+            if not snaps and unresolved:
+                ctx.add("4-snapshot", call, uc, None, f"UNDECIDED: the handler calls `{norm(unresolved[0])[:50]}`, which could not be resolved: whether the snapshot is recorded is not decided", key="capture")
+                return _snapshot_rest(ctx)
         if snaps and isinstance(snap_val, ast.Call):
             a = [norm(x) for x in snap_val.args]
             star_a = [norm(x.value) for x in uc.args if isinstance(x, ast.Starred)]
@@ -218,11 +240,35 @@ def rule_snapshot(ctx: Ctx) -> None:
             ok = a == want and dotted(snap_val.func) == "ErrorSnapshot"
             why = "ErrorSnapshot(self.func, e, args, kwargs) holds exactly what the failing call received" if ok else f"ErrorSnapshot{tuple(a)} does not hold the callee/arguments of the failing call {tuple(want)}"
             last = h.body[-1]
+            _ = delegated
             if ok and not (isinstance(last, ast.Raise) and (last.exc is None or norm(last.exc) == h.name)):
                 ok, why = False, "the handler in PipeFunc.__call__ does not end with a re-raise of the caught exception"
             if ok and not any(_handler_types(h) & BROAD):
                 ok, why = False, "the handler in PipeFunc.__call__ does not catch Exception"
     ctx.add("4-snapshot", call, uc, ok, why, key="capture")
+    _snapshot_rest(ctx)
+
+
+def _only_called_from_handlers(ctx: Ctx, fn_: FuncInfo, depth: int = 2) -> bool:
+    sites = ctx.cg.call_sites_of(fn_.qualname)
+    if not sites:
+        return False
+    for s_ in sites:
+        par_ = _parents(s_.caller.node)
+        x = s_.node
+        inside = False
+        while id(x) in par_:
+            x = par_[id(x)]
+            if isinstance(x, ast.ExceptHandler):
+                inside = True
+        if not inside and not (depth > 0 and _only_called_from_handlers(ctx, s_.caller, depth - 1)):
+            return False
+    return True
+
+
+def _snapshot_rest(ctx: Ctx) -> None:
+    P = ctx.prog
+    call = P.func(CALL)
     # the snapshot is only ever written where a failure is handled (and initialised in constructors)
     writers = []
     for fn_ in P.functions.values():
@@ -236,7 +282,7 @@ def rule_snapshot(ctx: Ctx) -> None:
                     x = par_[id(x)]
                     if isinstance(x, ast.ExceptHandler):
                         in_handler = True
-                if not in_handler and fn_.name not in ("__init__", "__setstate__", "__post_init__", "copy"):
+                if not in_handler and fn_.name not in ("__init__", "__setstate__", "__post_init__", "copy") and not _only_called_from_handlers(ctx, fn_):
                     writers.append((fn_, s_))
     ctx.add("4-snapshot", writers[0][0] if writers else call, writers[0][1] if writers else call.node, not writers, "error_snapshot is only written by the failure handler (and initialised in constructors)" if not writers else
             f"`{norm(writers[0][1])[:60]}` overwrites error_snapshot outside a failure handler: with concurrent calls (thread pool) a call that succeeds after the failing one erases the snapshot of the failure", key="snapshot-writers")
